@@ -646,6 +646,12 @@ func (r *reporter) flush(mets []m3thrift.Metric) []m3thrift.Metric {
 	})
 	if err != nil {
 		r.numWriteErrors.Inc()
+		// n.b. The client gives up on the first error without flushing; drop
+		//      what the failed message left in the transport so that it is
+		//      not sent in front of the next batch.
+		if d, ok := r.client.Transport.(interface{ Discard() }); ok {
+			d.Discard()
+		}
 	}
 
 	// n.b. In the event that we had allocated additional tag storage in
